@@ -509,8 +509,12 @@ size_t varintAdaptiveDecode(const uint8_t *src, uint64_t *values,
     }
 
     case VARINT_ADAPTIVE_DICT: {
-        /* Dict encoding is self-describing, pass large buffer size */
-        decoded = varintDictDecodeInto(data, 1024 * 1024, values, maxCount);
+        /* This API is not told the input length.  Bound the dictionary
+         * decoder by the largest encoding that holds maxCount values (more
+         * cannot be decoded into 'values' anyway); a fixed 1 MiB rejected
+         * valid encodings larger than that. */
+        decoded = varintDictDecodeInto(data, varintAdaptiveMaxSize(maxCount),
+                                      values, maxCount);
         break;
     }
 
